@@ -64,3 +64,17 @@ package producer
 //@   loop 1
 //@     invariant n != nil && n.logger != nil && ec != nil && n.connection != nil
 //@     step [once] calls_Publish == iter(calls_Publish) + 1
+
+// >>> field snapshots (govc -gen-names)
+//@ fields KafkaSarama producer config logger
+//@ fields KafkaSaramaConfig Brokers Compression RetryMax RequestSizeMax RetryBackoff TLSEnabled TLSCertFile TLSKeyFile CAFile TLSSkipVerify SASLUsername SASLPassword
+//@ fields KafkaSegmentio producer config logger
+//@ fields KafkaSegmentioConfig run Brokers BootstrapServer ClientID Compression MaxAttempts QueueSize BatchSize KeepAlive IOTimeout RequiredAcks PeriodicFlush TLSCertFile TLSKeyFile CAFile VerifySSL
+//@ fields NATS connection config logger
+//@ fields NATSConfig URL
+//@ fields NSQ producer config logger
+//@ fields NSQConfig Server
+//@ fields Producer MQ MQConfigFile MQErrorCount Topic Chan Logger
+//@ fields RawSocket connection config logger
+//@ fields RawSocketConfig URL Protocol MaxRetry
+// <<< field snapshots
